@@ -311,4 +311,4 @@ Print Assumptions C20_net_schedule.
 Print Assumptions C20_net_stored_fixed.
 Print Assumptions C20_train_loop.
 From CPL Require Import gen.GenFuns_C20 GenProps.GenFunsEquivC20 GenProps.C20Src. (* source tie: gen/GenFuns_C20.v is regenerated from hopfield_net.py on every run *)
-Theorem C20_source_tie : forall (W : list (list Z)) (r : nat) (n : list Z) (c : nat), src_hopfield_rule W (Z.of_nat r) n (Z.of_nat c) = hopfield_rule W r n c. Proof. exact C20_source_translation_agrees. Qed. Print Assumptions C20_source_tie.
+Theorem C20_source_tie : (forall (W : list (list Z)) (r : nat) (n : list Z) (c : nat), src_hopfield_rule W (Z.of_nat r) n (Z.of_nat c) = hopfield_rule W r n c) /\ (forall P : list (list Z), src_hopfield_train P = train P). Proof. exact C20_source_translation_agrees. Qed. Print Assumptions C20_source_tie.
